@@ -2,6 +2,7 @@ package main
 
 import (
 	"fmt"
+	"go/token"
 	"go/types"
 	"os"
 	"strings"
@@ -159,18 +160,42 @@ func checkC26(c *Ctx) (string, []string) {
 				why = "the restore result is not tested"
 			}
 			if ok {
-				// from the second mismatch test (block is not the head itself) AddBlock is reachable only through the restore call
-				notSelf := condEdges(imp, func(v ssa.Value) (bool, bool) {
-					bo, isB := v.(*ssa.BinOp)
-					if !isB || bo.Op.String() != "!=" {
-						return false, false
+				// block extends neither the head nor is the head itself ⇒ AddBlock / RunSTF only after the restore
+				head, parent, self := "hash.ComputeBlockHeaderHash(BLOCK.Header)#0", "cell(p1).Header.Parent", "hash.ComputeBlockHeaderHash(p1.Header)#0"
+				seenA, seenB := false, false
+				av := func(s string) (int64, bool) {
+					if strings.HasPrefix(s, "len(") && strings.Contains(s, "GetBlocks(") {
+						return 1, true // there is an in-memory head
 					}
-					s := abbr(exprStr(v, shapeOpts))
-					return s == "(hash.ComputeBlockHeaderHash(BLOCK.Header)#0 != hash.ComputeBlockHeaderHash(p1.Header)#0)", true
+					for _, par := range []string{parent, "p1.Header.Parent"} {
+						if is, neg := eqAtom(s, head, par); is {
+							seenA = true
+							if neg {
+								return 1, true
+							}
+							return 0, true
+						}
+					}
+					if is, neg := eqAtom(s, head, self); is {
+						seenB = true
+						if neg {
+							return 1, true
+						}
+						return 0, true
+					}
+					return 0, false
+				}
+				leak := false
+				allInstrs(imp, func(in ssa.Instruction) {
+					if f := calleeFunc2(in); f == addBlock || f == runSTF {
+						if reachAvoiding(in, restoreCall, robustOpts, av) {
+							leak = true
+						}
+					}
 				})
-				if len(notSelf) != 1 {
-					ok, why = false, "the 'block is not the current head' test was not found"
-				} else if _, skip := findPath(pathQuery{startEdges: notSelf, target: func(in ssa.Instruction) bool { return calleeFunc2(in) == addBlock }, blocker: func(in ssa.Instruction) bool { return in == ssa.Instruction(restoreCall) }}); skip {
+				if !seenA || !seenB {
+					ok, why = false, "the 'block extends the current head' / 'block is the current head' tests were not found"
+				} else if leak {
 					ok, why = false, "on the parent-mismatch path the block can be added without restoring the parent's state"
 				}
 			}
@@ -344,11 +369,15 @@ func checkC26(c *Ctx) (string, []string) {
 	}
 	c.Note("γ_z is not in the must-set: on the epoch-change arm SetGammaZ is conditional on the ring commitment being computed (an error there is logged, not returned); on the same-epoch arm it is copied from the prior state. Reported as an observation: it needs a failing ring verifier to matter, which cannot be constructed offline.")
 	for _, cf := range []*ssa.Function{commitA, commitB} {
-		effs := abbrAll(effectShapesOpt(cf, func(n string) bool { return strings.Contains(n, "SetState") || strings.Contains(n, "UnmatchedKeyVals") }, false))
+		ho := robustOpts
+		ho.inline = func(g *ssa.Function) bool {
+			return g != nil && g != cf && len(g.Blocks) > 0 && g.Pkg != nil && g.Pkg == cf.Pkg && !token.IsExported(g.Name())
+		}
+		effs := abbrAll(robustCalls(cf, ho, func(n string) bool { return strings.Contains(n, "SetState") || strings.Contains(n, "UnmatchedKeyVals") }))
 		want := []string{
-			"call " + B + "SetPriorStateUnmatchedKeyVals(p0, " + B + "GetPostStateUnmatchedKeyVals(p0))",
-			"call post.SetState(" + B + "GetPosteriorStates(p0), *internal/blockchain.NewPosteriorStates().state)",
-			"call prior.SetState(" + B + "GetPriorStates(p0), post.GetState(" + B + "GetPosteriorStates(p0)))",
+			B + "SetPriorStateUnmatchedKeyVals(p0, " + B + "GetPostStateUnmatchedKeyVals(p0))",
+			"post.SetState(" + B + "GetPosteriorStates(p0), *internal/blockchain.NewPosteriorStates().state)",
+			"prior.SetState(" + B + "GetPriorStates(p0), post.GetState(" + B + "GetPosteriorStates(p0)))",
 		}
 		has := map[string]bool{}
 		for _, e := range effs {
